@@ -153,18 +153,31 @@ func exContext(e *exEnv) *generator.Context {
 	return c
 }
 
+// asTarget hands the executor the library's own generator.SimpleTarget (every other target; a target that accepts every
+// type gets no FilterFunc at all, so the default filter is exercised too) instead of the harness's Target implementation
+func asTarget(p exPkg, i int) generator.Target {
+	if i%2 == 1 {
+		return p
+	}
+	st := generator.SimpleTarget{PkgName: p.Name(), PkgPath: p.Path(), PkgDir: p.Dir(), HeaderComment: p.Header(""), GeneratorsFunc: p.Generators}
+	if len(p.t.Accept) < len(p.e.ids) {
+		st.FilterFunc = p.Filter
+	}
+	return st
+}
+
 func execImpl() common.ExecImpl {
 	return common.ExecImpl{
 		V2: true,
 		RunTarget: func(cfg *common.ExecConfig, i int, root string, rec *common.ExecRecorder) error {
 			e := newExEnv(cfg, rec)
-			return exContext(e).ExecuteTarget(exPkg{e, cfg.Targets[i], root})
+			return exContext(e).ExecuteTarget(asTarget(exPkg{e, cfg.Targets[i], root}, i))
 		},
 		RunAll: func(cfg *common.ExecConfig, root string) error {
 			e := newExEnv(cfg, &common.ExecRecorder{})
 			var pkgs []generator.Target
-			for _, t := range cfg.Targets {
-				pkgs = append(pkgs, exPkg{e, t, root})
+			for i, t := range cfg.Targets {
+				pkgs = append(pkgs, asTarget(exPkg{e, t, root}, i))
 			}
 			return exContext(e).ExecuteTargets(pkgs)
 		},
